@@ -101,7 +101,7 @@ def _tla_to_json(s):
 
 
 def run_tlc(module, cfg=None, env=None, workers=16, timeout=900, simulate=None, depth=None,
-            seed=None, coverage=True, deadlock=False, specdir=SPECS, heap=None, keep_output=False,
+            seed=None, coverage=True, deadlock=False, specdir=SPECS, heap="6g", keep_output=False,
             extra=(), dfs=False):
     """Run TLC on specs/<module>.tla with specs/<cfg>.  Returns a TlcResult.
 
